@@ -165,6 +165,75 @@ def views_rs(tier):
     return pr.obs
 
 
+def views_bits_corpus():
+    """BOUNDED: the float-valued views bit-for-bit on a corpus with infinite, huge, zero-width and signed-zero edges,
+    executed on the real crate and compared with the IEEE evaluation of the formulas in the property statement
+    ((lower+upper)/2 etc.).  Catches rewrites that are equal over the reals (invisible to RS) but differ in f64."""
+    import math
+    import replay
+    from common import Obligation, DISCHARGED, REFUTED, UNDECIDED
+    inf = float("inf")
+
+    def fdiv(a, b):
+        try:
+            return a / b
+        except ZeroDivisionError:
+            if a == 0 or a != a:
+                return float("nan")
+            return math.copysign(inf, a) * (math.copysign(1.0, b))
+    cases = [
+        ("H4", [-inf, -1.0, 0.1, 2.5, inf], [-5.0, -0.5, 0.0, 0.05, 1.0, 1.5, 2.5, 100.0]),
+        ("H1", [-1e308, 1e308], [0.0, 1e307, -1e307]),
+        ("H3", [0.0, 1.0, 1.0, 3.0], [0.5, 1.0, 2.0, 2.5]),
+        ("H2", [-1.0, -0.0, 0.5], [-0.5, 0.0, 0.25, -0.0]),
+        ("H4", [1e-300, 2e-300, 1.0, 1e300, 1.7e308], [1.5e-300, 0.5, 2.0, 1e305]),
+        ("Histogram10", [-inf, -3.0, -1.0, -0.1, 0.0, 0.1, 0.3, 1.0, 7.0, 1e10, inf], [-10.0, -2.0, -0.05, 0.05, 0.2, 0.2, 5.0, 1e11, 0.0]),
+        ("H3", [-1.0, 0.1, 0.7, 1.1], [0.0, 0.2, 0.9, 0.95]),
+    ]
+    progs = []
+    for ty, edges, samples in cases:
+        L = len(edges) - 1
+        progs.append({"type": ty, "ctor": ["from_ranges", edges], "ops": [["add", x] for x in samples],
+                      "observe": ["bins", "ranges", "widths", "centers", "normalized_bins", "variances"] + [["variance", i] for i in range(L)]})
+    name = "C13.views.bits_corpus"
+    fn = "src/traits.rs::Histogram::{widths,centers,normalized_bins,variance,variances} on the real crate"
+    bound = "%d histograms (infinite, huge, tiny, zero-width, signed-zero edges), every view item compared bit-for-bit" % len(cases)
+    results = replay.run_programs(progs)
+    same = lambda a, b: (a != a and b != b) or replay.bits(a) == replay.bits(b)
+    for pg, res in zip(progs, results):
+        if res.get("error") or res["panic"]:
+            return [Obligation(name, fn, "replay+ieee", UNDECIDED if res.get("error") else REFUTED, 0.0,
+                               "replay: %s" % (res.get("error") or res["panic"]), cex={"class": {"views": True}, "program": pg}, bounded=bound, kind="bounded")]
+        o = res["obs"]
+        edges, bins = o["ranges"], o["bins"]
+        total = float(sum(bins))
+        sum_inv = fdiv(1.0, total)
+        for i in range(len(bins)):
+            lo, hi, c = edges[i], edges[i + 1], float(bins[i])
+            exp = {"widths": hi - lo, "centers": 0.5 * (lo + hi), "normalized_bins": fdiv(c, hi - lo), "variances": c * (1.0 - c * sum_inv)}
+            for k, e in exp.items():
+                if not same(o[k][i], e):
+                    return [Obligation(name, fn, "replay+ieee", REFUTED, 0.0,
+                                       "%s[%d] of bin (%r, %r) count %d: got %r, the formula of the statement gives %r" % (k, i, lo, hi, bins[i], o[k][i], e),
+                                       cex={"class": {"views": True}, "program": pg, "statistic": "%s[%d]" % (k, i), "expected": repr(e), "actual": repr(o[k][i])},
+                                       bounded=bound, kind="bounded")]
+            v = o.get("variance(%d)" % i)
+            if v is None or not same(v, o["variances"][i]):
+                return [Obligation(name, fn, "replay+ieee", REFUTED, 0.0, "variance(%d) = %r differs from variances()[%d] = %r" % (i, v, i, o["variances"][i]),
+                                   cex={"class": {"views": True}, "program": pg, "statistic": "variance(%d)" % i, "expected": repr(o["variances"][i]), "actual": repr(v)},
+                                   bounded=bound, kind="bounded")]
+    return [Obligation(name, fn, "replay+ieee", DISCHARGED, 0.0, "all view items bit-identical to the statement's formulas", bounded=bound, kind="bounded",
+                       text="bit-for-bit views on %d histograms" % len(cases))]
+
+
+def confirm(ob):
+    c = ob.cex or {}
+    if c.get("program") and c.get("statistic"):
+        return {"program": c["program"], "expected": {c["statistic"]: c.get("expected")}, "actual": {c["statistic"]: c.get("actual")},
+                "confirmed_on_real_code": True}
+    return None
+
+
 def run(tier, seed):
     lens = [1, 2, 3, 4] if tier == "quick" else [1, 2, 3, 4, 10]
     job = hist_job("C13", lens, NAMES, unwind=14, timeout=900, harness_timeout=300)
@@ -175,6 +244,7 @@ def run(tier, seed):
         obs += hist_const_job("C13", [1, 3], NAMES, unwind=8).run()
     obs += structural("C13")
     obs += views_rs(tier)
+    obs += views_bits_corpus()
     obs += vl.run_lemmas("C13", ["merge_tree", "concat", "swap"])
     meta = dict(COMMON_META)
     meta.update({
@@ -190,8 +260,9 @@ def run(tier, seed):
             "mismatch.no_mutation is decided structurally (every assert precedes every write in merge/add_assign), a sufficient condition on the real AST, not by Kani",
             "associativity/commutativity over whole histories: integer vector addition + Verus merge-tree lemma",
             "A-CBMC; A-RUSTC (the &Self operand is immutable)",
+            "the bit-level form of the views ((lower+upper)/2 rather than lower+(upper-lower)/2, ...) is exercised only by a BOUNDED corpus (views.bits_corpus); comparing two bit-blasted float computations did not terminate in CBMC",
             "float-valued views (widths, centers, normalized_bins, variance, variances) are decided by RS under exact-real semantics (A-REAL) with the inner iterator abstract; normalized_bins for non-empty bins (lower < upper); variance for a non-empty histogram",
         ],
         "explanation": "state-level bin-wise contracts per operation, bit-equality of every view item with the formula in the property statement.",
     })
-    return obs, meta, None
+    return obs, meta, confirm
